@@ -8,6 +8,7 @@
   correspondence stream (partial).
 -/
 import CSD.Lemmas.RGSelect2
+import CSD.Lemmas.RGSelect0b
 import CSD.Generated.Bodies
 import CSD.Model.SourceText
 import CSD.Lemmas.RG
@@ -53,6 +54,43 @@ theorem rg_select1_out_of_range (words : List Nat) (factor n total x : Nat) (h :
     · rw [if_neg h0, if_pos rfl]
   · rw [if_pos h]
 
+/-- **`access` of BitSequenceRG is the bit of the plain vector**, for every position inside the array. -/
+theorem rg_access_exact (words : List Nat) (i : Nat) (h : i < 32 * words.length) :
+    (RG.allBits words)[i]? = some (RG.access words i) := by
+  have hk : i / 32 < words.length := by omega
+  have e : i = 32 * (i / 32) + i % 32 := by omega
+  conv => lhs; rw [e]
+  rw [RG.allBits_get words (i / 32) (i % 32) hk (by omega)]
+  unfold RG.access RG.W
+  rw [List.getD_eq_getElem?_getD, List.getElem?_eq_getElem hk]
+  rfl
+
+/-- **`select0` of BitSequenceRG is exact** (the model mirrors the C++ routine; zeros before super-block
+`mid` are `mid·factor·W − Rs[mid]`): for `1 ≤ x ≤ n − ones` the answer `p < n` is the position of the `x`-th
+zero — bit `p` is clear and exactly `x − 1` zeros precede it — every array read in bounds, and the final
+`left > n` clamp is never taken. The padding bits of the last word count as zeros in the routine; the
+theorem shows they are never reached. -/
+theorem rg_select0_exact (words : List Nat) (factor n total x : Nat) (hf : 0 < factor) (hx1 : 1 ≤ x) (hx2 : x ≤ n - total)
+    (htot : n - total ≤ RG.zeros words n) (hlen : words.length = n / 32 + 1) :
+    ∃ p, RG.select0 words factor n total x = some p ∧ p < n ∧ (RG.allBits words)[p]? = some false ∧
+      RG.zeros words p = x - 1 :=
+  RG.select0_spec words factor n total x hf hx1 hx2 htot hlen
+
+/-- Out of range: `select0(x > n − ones)` answers `(uint)-1`, `select0(0)` answers 0, without touching the arrays. -/
+theorem rg_select0_out_of_range (words : List Nat) (factor n total x : Nat) :
+    (x > n - total → RG.select0 words factor n total x = some (2 ^ 32 - 1)) ∧
+    (x = 0 → RG.select0 words factor n total x = some 0 ∨ RG.select0 words factor n total x = some (2 ^ 32 - 1)) := by
+  refine ⟨fun h => by unfold RG.select0; rw [if_pos h], fun h => ?_⟩
+  subst h
+  unfold RG.select0
+  by_cases h0 : 0 > n - total
+  · right; rw [if_pos h0]
+  · left; rw [if_neg h0, if_pos rfl]
+
+/-- Non-vacuity: the second zero of the 40-bit vector whose first word is 5 (bits 1 0 1 0 …) sits at position 3. -/
+example : RG.select0 [5, 11] 1 40 5 2 = some 3 := by decide
+example : RG.zeros [5, 11] 40 = 35 := by decide
+
 /-- Non-vacuity: the third one of the 40-bit vector 0b…1011 0000…0101 sits at position 32. -/
 example : RG.select1 [5, 11] 1 40 5 3 = some 32 := by decide
 
@@ -62,6 +100,7 @@ functions they mirror (`CSD/Generated/Bodies.lean` is re-extracted from the sour
 obligation even if no generated input tells the behaviours apart. -/
 theorem models_match_source_text :
     Generated.body_RG_rank1 = SourceText.body_RG_rank1 ∧
-    Generated.body_RG_select1 = SourceText.body_RG_select1 := ⟨rfl, rfl⟩
+    Generated.body_RG_select1 = SourceText.body_RG_select1 ∧
+    Generated.body_RG_select0 = SourceText.body_RG_select0 := ⟨rfl, rfl, rfl⟩
 
 end CSD.Props.C19
